@@ -23,6 +23,8 @@ func init() {
 			"recording N yields and the effect trace E with the yield count at every effect; then for EVERY k in 1..min(N,H) a run whose Yielder raises the stop flag inside the k-th Yield. " +
 			"Oracle: (i) at least one yield between any two consecutive effects and endless programs reach the horizon; (ii) after the flag is raised Yield is never called again, the result " +
 			"is 'stopped' for k < N, the effects are exactly the prefix of E performed before yield k (plus at most the one niladic built-in whose own step raised the flag, plus the test summary). " +
+			"(iii) for every effect e of the uninterrupted run, a run in which the platform raises the flag inside e itself (Sleep/Read/Print...), once with and once without a Yielder " +
+			"installed: result 'stopped', effects = a prefix of E ending at e or at a later effect that E reaches without a yield in between. " +
 			"Non-trivial = a stop point strictly inside the run (1 <= k < N).",
 		Assumptions: []string{"the browser side (pkg/wasm sleepingYielder, stop export; //go:build tinygo) cannot be built here and is not executed",
 			"Go loops inside a single built-in do not yield; built-in arguments are kept small"},
